@@ -610,3 +610,31 @@ Definition cstep (c : config) (tid : nat) : config :=
   end.
 
 Definition run_conc (c : config) (sched : list nat) : config := fold_left cstep sched c.
+
+(* ------------------------------------------------------------------ *)
+(** * histories: operations and complete dispatches interleaved on ONE router *)
+
+(* Router.Match / Router.ServeCOAP only READ the router: besides the route map
+   [z], [defaultHandler], [middlewares] and [errors] the Router has no field,
+   and both sections of a dispatch hold the read lock only.  A completed
+   dispatch therefore leaves the state unchanged, and the next one scans the
+   map again -- there is no memory of earlier resolutions.  [order] is the
+   iteration order of that scan (a parameter, as in [serve]). *)
+Inductive hstep := HOp (o : op) | HServe (segs : list str) (order : list route).
+
+Fixpoint run_hist (st : rstate) (mws : list (Z * bool)) (h : list hstep) : list (list ev * rparams) :=
+  match h with
+  | [] => []
+  | HOp o :: r => run_hist (fst (apply_op st o)) mws r
+  | HServe segs order :: r => serve st mws order segs :: run_hist st mws r
+  end.
+
+(* the operations of a history, and the number of its dispatches *)
+Definition hops (h : list hstep) : list op :=
+  flat_map (fun s => match s with HOp o => [o] | HServe _ _ => [] end) h.
+Definition hserves (h : list hstep) : nat :=
+  length (filter (fun s => match s with HOp _ => false | HServe _ _ => true end) h).
+
+(* lookup in the route map *)
+Fixpoint map_get (m : list (str * route)) (k : str) : option route :=
+  match m with [] => None | (k', v) :: r => if str_eqb k' k then Some v else map_get r k end.
